@@ -36,7 +36,7 @@ TITLE = "Iterative connect converges or reports exactly the stuck components"
 COQ_IMPORTS = "From FV Require Import Base Connect."
 COQ_CHECK = "c06_check"
 COQ_MODEL_OBS = "c06_model"
-CASE_TIMEOUT = 30
+CASE_TIMEOUT = 10
 RULE = (
     "comp stream: random dependency shapes of 1-5 harness components (0-3 inputs / 0-3 outputs each, links to any "
     "output incl. own, direct or behind Scale), infos from constructor / try_connect arguments with random "
@@ -421,7 +421,7 @@ CORPUS = _corpus()
 def generate(rng, tier):
     quick = tier == "quick"
     cases = list(CORPUS) + _witnesses()
-    n_shapes, n_rand, n_script = (25, 350, 250) if quick else (250, 6000, 4000)
+    n_shapes, n_rand, n_script = (60, 1500, 900) if quick else (400, 20000, 12000)
     k = 0
     while k < n_shapes:
         c = _gen_comp(rng)
@@ -491,6 +491,8 @@ class HC(fm.TimeComponent):
         self._case, self._k, self._log = case, k, log
         self._cs = case["comps"][k]
         self.time = T(self._cs["time"])
+        n_items = sum(len(_items_of(case, c)) for c in case["comps"])
+        self._bound = (n_items + len(case["comps"]) + 1) * max(1, len(case["comps"]))
 
     def _next_time(self):
         return self.time + timedelta(days=1)
@@ -526,6 +528,9 @@ class HC(fm.TimeComponent):
             if sp["prov_data"] is not None and all(_dep_ok(conn, d) for d in sp["prov_data"][0]):
                 pd[f"Out{o}"] = float(sp["prov_data"][1])
         before = _count_done(conn)
+        if len(self._log) > self._bound:
+            # more calls than the proven bound of C06_terminates allows: stop the run, the monitor reports it
+            raise RuntimeError("C06: connect loop exceeded the proven iteration bound")
         self.try_connect(start_time, exchange_infos=ex, push_infos=pi, push_data=pd)
         self._log.append([self._k, self.status.name, before, _count_done(conn), _count_declared(conn)])
 
@@ -867,6 +872,9 @@ def _monitor_comp(case, obs):
     # termination bound: <= #items + #components + 1 rounds of at most #components calls each
     if len(obs["events"]) > (n_items + len(comps) + 1) * max(1, len(comps)):
         return f"{len(obs['events'])} connect calls exceed the bound for {n_items} items / {len(comps)} components"
+    if obs["error"] == "RuntimeError":
+        return (f"connect() did not terminate within {n_items} + {len(comps)} + 1 rounds "
+                f"({len(obs['events'])} _connect calls so far)")
     if obs["error"] not in (None, "CircularCoupling"):
         return f"connect raised {obs['error']}"
     D = lfp(case)
